@@ -14,6 +14,8 @@ DEFAULT_SKIP = {
     'hdr_len_big': True,            # F11 header length > sizeof(VBIPROXY_MSG): assert in vbi_proxy_msg_handle_read
     'strict_oob': True,             # F4 SERVICE_REQ strict is not clamped
     'unheld_return': True,          # F5 NOTIFY(TOKEN) from a client that does not hold the token -> assert in get_token_owner
+    'lib_ioctl': True,              # F12 vbi_proxy_client_device_ioctl() writes one byte past its message buffer (client library)
+    'update_during_token_wait': True,  # F13 TOKEN_IND arriving inside vbi_capture_update_services() makes the library drop the connection
     'thread_start_race': True,      # F9 acquisition thread runs before max_lines is set when the first frame arrives at once
     'dyn_params': True,             # F6/F7 device line counts that follow the services (assert line_count < max_lines; idx < max_lines)
 }
@@ -401,6 +403,17 @@ def token_lib_client(rng, idx, total_ms, skip, fz):
     t = 0
     for rnd in range(rng.choice([1, 1, 2, 3])):
         ops.append(['Q', prio, rng.choice([0, 0x10, 0x10, 0x20, 0x40]), rng.choice([0, 0, 0, 1, 2]), 1])
+        if rng.random() < 0.2:
+            if skip.get('update_during_token_wait'):
+                fz.excluded += 1
+            else:
+                ops.append(['T', rng.choice([0, 5, 30])])
+                ops.append(['U', services(rng, allow_unsupported=False), 0, 0])
+        if rng.random() < 0.15:
+            if skip.get('lib_ioctl'):
+                fz.excluded += 1
+            else:
+                ops.append(['I', rng.randrange(0, 16)])
         w = rng.choice([100, 300, 700])
         ops.append(['W', w])
         h = rng.choice([20, 100, 300])
